@@ -7,8 +7,10 @@ import (
 
 	gmqtt "github.com/DrmagicE/gmqtt"
 	"github.com/DrmagicE/gmqtt/persistence/queue"
+	sessredis "github.com/DrmagicE/gmqtt/persistence/session/redis"
 	"github.com/DrmagicE/gmqtt/pkg/codes"
 	"github.com/DrmagicE/gmqtt/pkg/packets"
+	"github.com/DrmagicE/gmqtt/zzredis"
 	"github.com/DrmagicE/gmqtt/zzrt"
 )
 
@@ -31,6 +33,12 @@ func ZZ_C08_Will() {
 	EV := zzrt.Param("EV")
 	srv, pers := zzLifecycleServer()
 	srv.config.MQTT.SessionExpiry = 1 << 21 * time.Second
+	// session store (it holds the will): memory, or the real redis session store
+	if zzrt.Choice(zzrt.Param("BACKENDS")) == 1 {
+		srv.sessionStore = sessredis.New(zzredis.NewPool(zzredis.NewStore()))
+		srv.clientService.sessionStore = srv.sessionStore
+		zzrt.Cover("redis-session-store")
+	}
 	// an independent subscriber that keeps the RETAIN flag as published
 	sq := &zzRecQueue{}
 	srv.queueStore["s1"] = sq
@@ -58,6 +66,7 @@ func ZZ_C08_Will() {
 		conn.WillProperties.ContentType = []byte("ct")
 		conn.WillProperties.ResponseTopic = []byte("rt")
 		conn.WillProperties.CorrelationData = []byte("cd")
+		conn.WillProperties.User = []packets.UserProperty{{K: []byte("k"), V: []byte("v")}}
 	} else {
 		conn = zzConnectPacket(false, "c1", zzrt.ConcreteBool(E == 0), nil)
 		srv.config.MQTT.SessionExpiry = time.Duration(E) * time.Second
@@ -213,7 +222,8 @@ func ZZ_C08_Will() {
 		kept := srv.retainedDB.GetRetainedMessage("w")
 		zzrt.Assert((kept != nil) == willRetain, "will-with-retain-flag-is-kept-as-retained-message")
 		if v5 {
-			zzrt.Assert(m.MessageExpiry == 77 && m.PayloadFormat == 1 && m.ContentType == "ct" && m.ResponseTopic == "rt" && string(m.CorrelationData) == "cd", "will-carries-properties")
+			zzrt.Assert(m.MessageExpiry == 77 && m.PayloadFormat == 1 && m.ContentType == "ct" && m.ResponseTopic == "rt" && string(m.CorrelationData) == "cd" &&
+				len(m.UserProperties) == 1 && string(m.UserProperties[0].K) == "k" && string(m.UserProperties[0].V) == "v", "will-carries-properties")
 		}
 		zzrt.Cover("published")
 	} else {
